@@ -381,7 +381,11 @@ struct Drv
             ChanModel &m = M.ch[ch];
             // not decided by the statement: whether a mode switch keeps bank select / program and drum-part assignments -> adopt what is observed
             m.msb = p->m_midiChannels[(size_t)ch].bank_msb; m.lsb = p->m_midiChannels[(size_t)ch].bank_lsb; m.prog = p->m_midiChannels[(size_t)ch].patch;
-            if(M.mode == MODE_GS) { m.D = p->m_midiChannels[(size_t)ch].is_xg_percussion ? 1 : 0; m.either_D = false; m.either_X = false; }
+            // In GS mode the percussion channels are channel 10 and the GS drum-part assignments (statement); whether a drum-part
+            // assignment made earlier survives the switch is adopted, but a channel that never got one (its percussion role, if any,
+            // came from an XG bank MSB) must be melodic now
+            const bool had_part = m.D != 0 || m.either_D;
+            if(M.mode == MODE_GS) { m.D = (had_part && p->m_midiChannels[(size_t)ch].is_xg_percussion) ? 1 : 0; m.either_D = false; m.either_X = false; }
             else { m.either_D = m.D != 0; m.either_X = (m.msb == 126 || m.msb == 127); }
             m.log(nm[which]);
         }
